@@ -73,7 +73,7 @@ def run(tier, seed):
     assert src_e != src
     qs = []
     for kind in range(3):
-        for ln in (1, 2, 3):
+        for ln in ((1, 2, 3) if tier == 'quick' else (1, 2, 3, 4, 5)):
             for ind in range(2):
                 new = 'header_k%d_l%d_i%d' % (kind, ln, ind)
                 qs.append(Query(new, src + '\n\n' + copy_fn(src, 'header', new, 'kind == %d and len(name) == %d and ind == %d' % (kind, ln, ind)),
@@ -96,7 +96,7 @@ def run(tier, seed):
     rep.functions = ['SourceScope.find_id_loc', 'SourceScope.find_def_loc', 'FuncScope.__init__', 'ClassScope.__init__',
                      'extract_visitor.visit_Import/visit_ImportFrom/alias_loc', 'util.np', 'SourceScope.all_names',
                      'linter.lint (W01/W02 positions)', 'assistant.location']
-    rep.bounds = ['(S) def / async def / class headers: name = any string of 1..3 letters of "acdefilmoprsty" (so that it can collide with '
+    rep.bounds = ['(S) def / async def / class headers: name = any string of 1..3 (thorough: 1..5) letters of "acdefilmoprsty" (so that it can collide with '
                   'keywords of the header) except Python keywords, 1..3 spaces before and 0..2 after the name, optional decorator, top level or nested, optional backslash continuation between keyword and name',
                   '(E) 9 import statement forms (plain, as, several aliases, dotted, x as y + y as x, parenthesised over two lines) x 3*5*5*3 '
                   'identifiers chosen to collide with "from", "import", "as" and with each other x spacing',
